@@ -466,6 +466,12 @@ def check_case(case):
             v = fmtc
         return f"C07:{claim}:{module}:{v}"
 
+    # LinSolve wraps its solver in LDAWrapper (residual tolerance 1e-7 per column, relative to that column's norm): a
+    # column whose non-trivial part is below 1e-7 of its norm (possible with the widely scaled columns of variant
+    # "colscales", e.g. a load dominated by a decoupled dof) is legitimately accepted without an inner solve. For
+    # that variant the solve claims are judged at 1e-6 instead of 1e-10 (a dropped or wrong column is O(1) off).
+    tol_sys = 1e-6 if case["rhs"]["variant"] == "colscales" else TOL_BE
+
     # ---- judge functions: return list of (claim, detail) ----------------------------------------------------
     def judge_linsolve(A, b, x):
         x = np.asarray(x)
@@ -477,7 +483,7 @@ def check_case(case):
             e = _col_relres(A, x, b)
             return [("Ax=b", f"CG column-wise relative residual {e:.3e} > {TOL_CG:.1e}")] if e > TOL_CG else []
         e = _be(A, x, b)
-        if e > TOL_BE:
+        if e > tol_sys:
             return [("Ax=b", f"backward error |Ax-b|/(|A||x|+|b|) = {e:.3e}; x={np.array2string(x, precision=4)[:160]}")]
         return []
 
@@ -514,7 +520,7 @@ def check_case(case):
                 out.append(("Ax=b_free_rows", f"CG relative residual of the free rows {e:.3e}"))
         else:
             e = _be(A[f, :], x, bb[f, ...])
-            if e > TOL_BE:
+            if e > tol_sys:
                 out.append(("Ax=b_free_rows", f"backward error of rows 'free' of A x = b: {e:.3e}"))
         e = _be(A[p, :], x, bb[p, ...])
         if e > TOL_BE:
